@@ -1,3 +1,3 @@
 From Coq Require Import ExtrOcamlBasic NArith.
 From CppUVerif Require Import C11_Model.
-Extraction "c11_model.ml" C11_Model.run C11_Model.spec C11_Model.valid C11_Model.categorise C11_Model.render.
+Extraction "c11_model.ml" C11_Model.run C11_Model.spec C11_Model.valid.
